@@ -432,7 +432,9 @@ func writeEvidence(vd string, cfg *PropConfig, tier string, seed int, funcs []st
 	S float64
 }, notes, unsupp, unbound []string, known, undecided, violations int, wall float64, eng *vc.Engine) {
 	level := "proof"
-	if nDis != nObl || len(unbound) > 0 {
+	if nDis != nObl || len(unbound) > 0 || known > 0 {
+		// an open known finding (also one identified by a reproduction rather
+		// than by a failing obligation) means the property is not proved
 		level = "other"
 	}
 	var samples []interface{}
